@@ -232,6 +232,10 @@ type schedRun struct {
 	// sameLog: a read gave different output although the log's bytes were the same (probed
 	// between controller actions when probeReads is set)
 	sameLog []string
+	// uncontrolled: a process the controller believed stopped made system calls while
+	// another one ran (strace's per-thread stop lines can make a running process look
+	// parked). Which process changed the log is then unknown: the execution is not judged.
+	uncontrolled bool
 }
 
 // probeReads makes runSchedule run a read between controller actions and compare it with
@@ -361,9 +365,26 @@ func (w *World) runSchedule(cmds []ConcCmd, actions []SchedAction) schedRun {
 		}
 	}
 	probe("before the commands start")
+	callsOf := func(j int) int {
+		calls, _, _ := ParseTrace(procs[j].traceRaw())
+		return len(calls)
+	}
 	for _, a := range actions {
 		i := a.I
 		probe(fmt.Sprintf("before `%s %d`", a.Act, a.I))
+		before := map[int]int{}
+		for j, p := range procs {
+			if j != i && p != nil && cmds[j].End == 0 {
+				before[j] = callsOf(j)
+			}
+		}
+		checkStill := func() {
+			for j, n := range before {
+				if procs[j] != nil && callsOf(j) != n {
+					sr.uncontrolled = true
+				}
+			}
+		}
 		switch a.Act {
 		case "start":
 			if procs[i] != nil {
@@ -386,6 +407,7 @@ func (w *World) runSchedule(cmds []ConcCmd, actions []SchedAction) schedRun {
 			}
 			procs[i] = p
 			exited, timedOut := p.WaitParkedOrExit(hangLimit)
+			checkStill()
 			noteCommit(i)
 			finish(i, exited, timedOut)
 		case "resume":
@@ -395,6 +417,7 @@ func (w *World) runSchedule(cmds []ConcCmd, actions []SchedAction) schedRun {
 			}
 			p.Resume()
 			exited, timedOut := p.WaitParkedOrExit(hangLimit)
+			checkStill()
 			noteCommit(i)
 			finish(i, exited, timedOut)
 		}
